@@ -19,6 +19,45 @@ pub fn fit_or_skip<T, E: std::fmt::Display>(obs: &mut Obs, f: impl FnOnce() -> R
     }
 }
 
+/// wall-clock bound for a single fit run on a helper thread (a normal fit here takes milliseconds)
+pub const FIT_DEADLINE_S: u64 = 20;
+
+/// The same for the fits driven by argmin's L-BFGS + More-Thuente line search (Tweedie GLM, logistic
+/// regression): that line search has no iteration bound of its own and was observed to spin forever on a
+/// Poisson GLM (thorough tier, seed 1). The fit runs on a helper thread; if it does not come back within
+/// `FIT_DEADLINE_S` the case is counted as not judged and the thread is abandoned (it dies with the
+/// worker process). A deadline can only turn a case into "not judged", never into a failure.
+pub fn fit_with_deadline<T, E>(obs: &mut Obs, f: impl FnOnce() -> Result<T, E> + Send + 'static) -> Option<T>
+where
+    T: Send + 'static,
+    E: std::fmt::Display + Send + 'static,
+{
+    let (tx, rx) = std::sync::mpsc::channel();
+    let spawned = std::thread::Builder::new().stack_size(16 << 20).spawn(move || {
+        let r = vengine::guard(f).map(|r| r.map_err(|e| e.to_string()));
+        let _ = tx.send(r);
+    });
+    if spawned.is_err() {
+        obs.skip("skipped_fit_panicked");
+        return None;
+    }
+    match rx.recv_timeout(std::time::Duration::from_secs(FIT_DEADLINE_S)) {
+        Ok(Ok(Ok(m))) => Some(m),
+        Ok(Ok(Err(_))) => {
+            obs.skip("skipped_fit_returned_error");
+            None
+        }
+        Ok(Err(_)) => {
+            obs.skip("skipped_fit_panicked");
+            None
+        }
+        Err(_) => {
+            obs.skip("skipped_fit_did_not_terminate");
+            None
+        }
+    }
+}
+
 pub fn usable(c: &Case, obs: &mut Obs) -> bool {
     if c.well_formed() {
         true
